@@ -255,7 +255,18 @@ impl Check for C16 {
         st.nontrivial = has_la && has_tr && needs_escape;
 
         // behaviour of the rebuilt scanner
-        if !case.modes.is_empty() && case.modes.iter().all(|m| m.transitions.iter().all(|t| t.1 < case.modes.len())) {
+        // (building is only attempted for configurations of ordinary size: a 65 536-character
+        // pattern or hundreds of modes would cost minutes and is not what C16 is about)
+        let buildable_size = case.modes.len() <= 8
+            && case.modes.iter().all(|m| {
+                m.pats.len() <= 8
+                    && m.pats.iter().all(|p| {
+                        crate::rx::print(&p.rx).len() <= 300
+                            && p.la.as_ref().is_none_or(|l| crate::rx::print(&l.rx).len() <= 300)
+                    })
+            });
+        st.flag("beyond_buildable_size", !buildable_size);
+        if buildable_size && !case.modes.is_empty() && case.modes.iter().all(|m| m.transitions.iter().all(|t| t.1 < case.modes.len())) {
             let y: Vec<ScannerMode> = serde_json::from_str(&serde_json::to_string(&x).unwrap()).unwrap();
             let r = guard(|| {
                 (
